@@ -120,13 +120,35 @@ def _helpers():
             return not x
         return V.sym_not(x)
 
+    class _Stand:
+        """stand-in for a symbolic leaf while formatting: every conversion works, so that exactly the errors Python raises
+        for the *shape* of the argument (arity, tuple vs scalar) are preserved"""
+        def __str__(self):
+            return "<sym>"
+        __repr__ = __str__
+
+        def __int__(self):
+            return 0
+        __index__ = __int__
+
+        def __float__(self):
+            return 0.0
+
     def sym_fmt(fmt, arg):
         def has(x):
             if isinstance(x, tuple):
                 return any(has(y) for y in x)
-            return V.is_symbolic(x)
+            return V.is_symbolic(x) or hasattr(x, "__sym_isinstance__")
+
+        def stand(x):
+            if isinstance(x, tuple):
+                items = [stand(y) for y in x]
+                return type(x)(*items) if hasattr(x, "_fields") else tuple(items)
+            return _Stand() if (V.is_symbolic(x) or hasattr(x, "__sym_isinstance__")) else x
         if has(arg):
-            return "<formatted symbolic value>" if isinstance(fmt, builtins.str) else b"<formatted symbolic value>"
+            if isinstance(fmt, builtins.str):
+                return fmt % stand(arg)     # raises TypeError for a wrong number of arguments, exactly as with concrete values
+            return b"<formatted symbolic value>"
         return fmt % arg
 
     def sym_getitem(obj, key):
